@@ -65,4 +65,10 @@ def ofShape (l : List Nat) : V := ofList (l.map (fun (n : Nat) => V.int (n : Int
 def ofSeg (s : Segment) : V := .cons (.int s.offset) (.cons (.int (s.length : Int)) .nil)
 def ofSegs (l : List Segment) : V := ofList (l.map ofSeg)
 
+def ofIdx : IdxItem → V
+  | .int i => .int i
+  | .slice s => ofPySlice s
+  | .newaxis => .none
+  | .ellipsis => .ellipsis
+
 end Nb.C06
